@@ -2,7 +2,7 @@
    Static part (this file): the arithmetic that keeps points in the box, for every input; the loop invariant
    for every oracle trace; the abstract argument over construction sites.  Per-run part:
    factprops/FactsC05.v (every construction / evaluation site in /repo is of a known kind). *)
-From Verif Require Import Transform StepSolvers Loop VecLemmas TransformProofs StepProofs ImplicitProofs LoopTop Effects.
+From Verif Require Import Transform StepSolvers LineSearch Loop VecLemmas TransformProofs StepProofs ImplicitProofs SearchProofs LoopTop Effects.
 
 (* 1. StepResult puts the new point into [lb, ub] for EVERY dx the linear solver may have returned — so
       independently of Newton variant, step solver, linear solver and active-set rule — keeps dx consistent
@@ -57,6 +57,58 @@ Theorem C05_all_iterates_in_box : forall (inbox : nat -> Prop) (tr : list event)
   forallb event_from_known_site tr = true -> forall k, (k < length tr)%nat -> inbox k.
 Proof. exact all_iterates_in_box. Qed.
 
+(* 6. the Armijo line search of the Globalized Newton variant (LineSearch.v): every trial point it builds — the
+      points the user's functions are evaluated at while it backtracks — is in the box, for every direction and
+      step length; a step that returns hands on a point in the box, which is the trial point that passed the
+      test, for the first step length 2^-k (k < 30) that passes; the step fails (the code raises) exactly when
+      the residual is above newton_tol and all 30 trials are rejected *)
+Theorem C05_trial_point_in_box : forall (P : problem) x y dx0 dy0 alpha,
+  Forall2 (fun l u => bnd_le l u = true) (var_lb P) (var_ub P) ->
+  in_box (var_lb P) (var_ub P) (fst (trial_point P x y dx0 dy0 alpha)) = true.
+Proof. exact trial_point_in_box. Qed.
+Theorem C05_globalized_step_in_box : forall (P : problem) xh yh dt rho kind tau tol x y sol M r dx dy xn yn,
+  Forall2 (fun l u => bnd_le l u = true) (var_lb P) (var_ub P) ->
+  globalized_step P xh yh dt rho kind tau tol x y sol = (M, r, Some (dx, dy, xn, yn)) ->
+  in_box (var_lb P) (var_ub P) xn = true.
+Proof. exact globalized_step_in_box. Qed.
+Theorem C05_globalized_step_spec : forall (P : problem) xh yh dt rho kind tau tol x y sol M r dx dy xn yn,
+  Forall2 (fun l u => bnd_le l u = true) (var_lb P) (var_ub P) ->
+  globalized_step P xh yh dt rho kind tau tol x y sol = (M, r, Some (dx, dy, xn, yn)) ->
+  qle (merit P xh yh dt rho kind x y) tol = false ->
+  let '(_, _, (dx0, dy0, _, _)) := newton_step P xh yh dt rho kind Full tau x y sol in
+  let res := merit P xh yh dt rho kind x y in
+  let ip := search_ip P xh yh dt rho kind x y dx0 dy0 in
+  exists k, (k < max_trials)%nat
+    /\ accepts P xh yh dt rho kind tol res ip x y dx0 dy0 (halves k 1) = true
+    /\ (forall j, (j < k)%nat -> accepts P xh yh dt rho kind tol res ip x y dx0 dy0 (halves j 1) = false)
+    /\ let '(xt, yt) := trial_point P x y dx0 dy0 (halves k 1) in veq xn xt /\ yn = yt.
+Proof. exact globalized_step_spec. Qed.
+Theorem C05_globalized_step_raises : forall (P : problem) xh yh dt rho kind tau tol x y sol,
+  snd (globalized_step P xh yh dt rho kind tau tol x y sol) = None <->
+  qle (merit P xh yh dt rho kind x y) tol = false
+  /\ let '(_, _, (dx0, dy0, _, _)) := newton_step P xh yh dt rho kind Full tau x y sol in
+     forall j, (j < max_trials)%nat ->
+       accepts P xh yh dt rho kind tol (merit P xh yh dt rho kind x y) (search_ip P xh yh dt rho kind x y dx0 dy0)
+               x y dx0 dy0 (halves j 1) = false.
+Proof. exact globalized_step_raises. Qed.
+Theorem C05_accepts_spec : forall (P : problem) xh yh dt rho kind tol res ip x y dx0 dy0 alpha,
+  accepts P xh yh dt rho kind tol res ip x y dx0 dy0 alpha = true <->
+  let '(xt, yt) := trial_point P x y dx0 dy0 alpha in
+  merit P xh yh dt rho kind xt yt <= tol \/ merit P xh yh dt rho kind xt yt <= res + c_1e4 * alpha * ip.
+Proof. exact accepts_spec. Qed.
+
+(* non-vacuity: f = x^2/2 on [-1, 3] from x = 1 with dt = rho = 1: the overshooting direction 4 is halved twice
+   (trial points -3 -> clipped to -1, then -1, then 0: accepted), the ascent direction -1 is rejected 30 times *)
+Definition ex05 : problem := quad_problem (mk_qspec [[1]] [0] 0 [] [] [] [Some (-(1))] [Some 3] [] []).
+Example C05_search_nonvacuous :
+  match snd (globalized_step ex05 [1] [] 1 1 KStandard None c_1e8 [1] [] [4]) with
+  | Some (dx, dy, xn, yn) => veqb dx [1] && veqb xn [0]
+  | None => false
+  end = true
+  /\ fst (trial_point ex05 [1] [] [4] [] 1) = [-(1)]
+  /\ snd (globalized_step ex05 [1] [] 1 1 KStandard None c_1e8 [1] [] [-(1)]) = None.
+Proof. vm_compute. repeat split. Qed.
+
 (* non-vacuity *)
 Example C05_nonvacuous :
   xn1 1 3 (Some 0) (Some 2) = (0, 1) /\ xn1 1 (-(5)) (Some 0) (Some 2) = (2, -(1)) /\ xn1 1 (1 # 2) (Some 0) None = (1 - (1 # 2), 1 # 2).
@@ -69,3 +121,8 @@ Print Assumptions C05_scaled_box_exact.
 Print Assumptions C05_start_slacks_in_box.
 Print Assumptions C05_loop_keeps_box.
 Print Assumptions C05_all_iterates_in_box.
+Print Assumptions C05_trial_point_in_box.
+Print Assumptions C05_globalized_step_in_box.
+Print Assumptions C05_globalized_step_spec.
+Print Assumptions C05_globalized_step_raises.
+Print Assumptions C05_accepts_spec.
